@@ -1224,5 +1224,14 @@ def biased_selects(prog):
                 continue
             n += 1
             if not any(cc.target.endswith("thread_rng_n") for (_, cc, _) in clos.calls()):
-                out.append((b, t, len(polls)))
+                # a per-flow task (an async block handed to tokio::spawn) may order its own two branches as it likes: it starves nobody else
+                parent = prog.body(getattr(b, "parent", None) or "")
+                per_flow = False
+                if parent is not None:
+                    for blk_ in parent.rpo():
+                        for s_ in parent.stmts(blk_):
+                            if s_["k"] == "assign" and s_["rv"]["k"] == "agg" and s_["rv"].get("def") == b.defp and not s_["p"][1] and _moved_into_spawn(parent, s_["p"][0]):
+                                per_flow = True
+                if not per_flow:
+                    out.append((b, t, len(polls)))
     return out, n
